@@ -22,7 +22,7 @@ def fmt_dt(d):
 
 class ProcResult(object):
     __slots__ = ('pid', 'argv', 'exit', 'out', 'err', 'exc', 'exc_frame', 'trace', 'nops',
-                 'nmut', 'killed', 'clock', 'replies')
+                 'nmut', 'killed', 'clock', 'replies', 'prompted')
 
     def as_log(self):
         return [self.pid, self.argv, self.exit, self.out.decode('utf-8', 'backslashreplace'),
